@@ -54,6 +54,26 @@ theorem cycle_rejected {ord : Ord} (ho : OrdOk ord) {cbs : Cbs} (hw : WF cbs) {p
     obtain ⟨hp, _, hr⟩ := order_sound ho hw h
     exact absurd ⟨r, hp, hr⟩ hc
 
+/-- **acyclic_accepted** (the converse of `cycle_rejected`).  Whenever *some* order of the callbacks
+satisfies all resolved constraints, `addCallback` accepts the new callback — whatever the iteration
+order of the sets: a plugin is never refused for a constraint set that can be met. -/
+theorem acyclic_accepted {ord : Ord} (ho : OrdOk ord) {cbs : Cbs} (hw : WF cbs) {p : Plugin}
+    (hnew : getCallback cbs p.name = none)
+    (hc : ∃ l : Cbs, l.Perm (cbs ++ [p]) ∧ Respects l (edgesOf (cbs ++ [p]))) :
+    ∃ r, addCallback ord cbs p = .ok r := by
+  obtain ⟨l, hl, hr⟩ := hc
+  have hw' := hw.snoc hnew
+  have hlen : (tsort ord (cbs ++ [p]) (edgesOf (cbs ++ [p]))).length = (cbs ++ [p]).length :=
+    rounds_complete ho hw'.nodup hl (hw'.perm hl).names_nodup hr _ (inv_init _ _) (by simp)
+  rw [addCallback_new hnew, if_neg (by simp [hlen])]
+  exact ⟨_, rfl⟩
+
+/-- **fuel_enough.**  The model bounds the `while firsts:` loop by one round per callback; no run
+ever needs more: with any amount of extra rounds the result is the same. -/
+theorem fuel_enough {ord : Ord} (ho : OrdOk ord) {nodes : Cbs} (hn : nodes.Nodup) (E : List Edge) (k : Nat) :
+    rounds ord nodes (nodes.length + k) [] E = tsort ord nodes E :=
+  rounds_extra_fuel ho hn nodes.length k (inv_init nodes E) (by simp)
+
 /-- a name that is already registered (in any capitalisation) is refused, nothing changes -/
 theorem duplicate_rejected (ord : Ord) (cbs : Cbs) (p : Plugin) (q : Plugin)
     (h : getCallback cbs p.name = some q) : addCallback ord cbs p = .error (.assertion, cbs) :=
@@ -95,6 +115,81 @@ theorem owner_stays (ord : Ord) (cbs : Cbs) (name : Name) (avail : Option Plugin
   unfold unload reload
   simp [h]
 
+/-! ### histories -/
+
+theorem exec_inv {ord : Ord} (ho : OrdOk ord) {cbs : Cbs} (g : Good cbs) {o : Plugin} (hm : o ∈ cbs)
+    (hn : isOwnerName o.name = true) (c : Cmd) :
+    Good (exec ord cbs c).2 ∧ o ∈ (exec ord cbs c).2 := by
+  have hlow : ∀ name, isOwnerName name = false → lower o.name ≠ lower name := by
+    intro name h e
+    unfold isOwnerName at hn h
+    rw [e] at hn
+    rw [hn] at h
+    cases h
+  cases c with
+  | load n a f => exact ⟨(load_good ho g n a f).1, (load_good ho g n a f).2 o hm⟩
+  | unload n f =>
+    refine ⟨(unload_good g n f).1, ?_⟩
+    cases hb : isOwnerName n with
+    | true => show o ∈ (unload cbs n f).2; rw [(owner_stays ord cbs n none f hb).1]; exact hm
+    | false => exact (unload_good g n f).2 o hm (hlow n hb)
+  | reload n a f =>
+    refine ⟨(reload_good ho g n a f).1, ?_⟩
+    cases hb : isOwnerName n with
+    | true => show o ∈ (reload ord cbs n a f).2; rw [(owner_stays ord cbs n a f hb).2]; exact hm
+    | false => exact (reload_good ho g n a f).2 o hm (hlow n hb)
+
+/-- **history_inv.**  Start from a dispatcher list with unique names, satisfied constraints and the
+core dispatcher plugin in it.  After *any* sequence of `load` / `unload` / `reload` commands — any
+names and capitalisations, any available plugins with any `callBefore`/`callAfter` sets, any
+injected import / constructor / die failures, any iteration order of the Python sets at every
+step — each registered name is still unique (each plugin exactly once), every resolved
+before/after constraint holds in the list, and the core dispatcher plugin is still registered and
+is element 0. -/
+theorem history_inv (cbs : Cbs) (g : Good cbs) (o : Plugin) (hm : o ∈ cbs) (hk : o.kind = .owner)
+    (hn : isOwnerName o.name = true) (cs : List (Ord × Cmd)) (hord : ∀ c ∈ cs, OrdOk c.1) :
+    WF (runCmds cbs cs) ∧ Respects (runCmds cbs cs) (edgesOf (runCmds cbs cs)) ∧
+    o ∈ runCmds cbs cs ∧ (runCmds cbs cs).head? = some o := by
+  induction cs generalizing cbs with
+  | nil => exact ⟨g.wf, g.resp, hm, g.owner_first hm hk⟩
+  | cons c cs ih =>
+    obtain ⟨ord, cmd⟩ := c
+    have h := exec_inv (hord (ord, cmd) mem_cons_self) g hm hn cmd
+    exact ih _ h.1 h.2 (fun c hc => hord c (mem_cons_of_mem _ hc))
+
+/-- **reload_import_failure_keeps.**  `reload` of a loaded plugin whose module now fails with an
+`ImportError` (or no longer exists) answers with an error and leaves exactly the previously
+registered plugins registered (the old instance is put back; its position may change, the
+constraints still hold). -/
+theorem reload_import_failure_keeps {ord : Ord} (ho : OrdOk ord) {cbs : Cbs} (g : Good cbs) (name : Name)
+    (avail : Option Plugin) (f : Faults) (hno : isOwnerName name = false)
+    (hl : (getCallback cbs name).isSome) (hf : f.importError = true ∨ avail = none) :
+    (reload ord cbs name avail f).1 = .error "no plugin" ∧ (reload ord cbs name avail f).2.Perm cbs ∧
+    Good (reload ord cbs name avail f).2 := by
+  obtain ⟨q, hq⟩ := Option.isSome_iff_exists.mp hl
+  have hql := (getCallback_mem hq).2
+  have hbad := removed_singleton g.wf hq
+  have hperm := removeCallback_perm cbs name
+  rw [hbad] at hperm
+  have gf : Good (removeCallback cbs name).2 := g.filter _
+  have hnew : getCallback (removeCallback cbs name).2 q.name = none := by
+    apply getCallback_none_iff.mpr
+    intro x hx hc
+    unfold removeCallback at hx
+    have := (mem_filter.mp hx).2
+    rw [hc, hql] at this
+    simp at this
+  have hw' := gf.wf.snoc hnew
+  obtain ⟨r, hr⟩ := acyclic_accepted ho gf.wf hnew
+    ⟨cbs, hperm.symm, fun e he => g.resp e ((edgesOf_perm hw' hperm.symm e).mpr he)⟩
+  have hrp := (addCallback_ok ho gf.wf hr).2.1
+  have hcond : (f.importError || avail.isNone) = true := by
+    rcases hf with h | h <;> simp [h]
+  have heq : reload ord cbs name avail f = (.error "no plugin", r) := by
+    unfold reload
+    simp only [hno, Bool.false_eq_true, if_false, hbad, isEmpty_cons, hcond, if_true, readd, hr]
+  refine ⟨by rw [heq], by rw [heq]; exact hrp.trans hperm, (reload_good ho g name avail f).1⟩
+
 /-! ### commands -/
 
 /-- **commands_union.**  The commands the dispatcher can route are exactly those of the registered
@@ -134,6 +229,22 @@ example : addCallback id [pOwner, pB, pMisc] pA = .ok [pOwner, pA, pB, pMisc] :=
 /-- rejected, list unchanged: B' → A → B' -/
 example : addCallback id [pOwner, pA, pMisc] pB' = .error (.assertion, [pOwner, pA, pMisc]) := by decide
 example : isOwnerName "OWNER".toList = true := by decide
+example : Good [pOwner, pA, pB, pMisc] := by
+  refine ⟨by decide, ?_⟩
+  have e : edgesOf [pOwner, pA, pB, pMisc] =
+      [(pOwner.name, ['A']), (pOwner.name, ['B']), (pOwner.name, pMisc.name), (['A'], ['B']),
+       (pOwner.name, pMisc.name), (['A'], pMisc.name), (['B'], pMisc.name)] := by decide
+  intro x hx
+  rw [e] at hx
+  simp only [mem_cons, not_mem_nil, or_false] at hx
+  rcases hx with rfl | rfl | rfl | rfl | rfl | rfl | rfl
+  · exact ⟨[pOwner], [pA, pB, pMisc], rfl, by decide, by decide⟩
+  · exact ⟨[pOwner], [pA, pB, pMisc], rfl, by decide, by decide⟩
+  · exact ⟨[pOwner], [pA, pB, pMisc], rfl, by decide, by decide⟩
+  · exact ⟨[pOwner, pA], [pB, pMisc], rfl, by decide, by decide⟩
+  · exact ⟨[pOwner], [pA, pB, pMisc], rfl, by decide, by decide⟩
+  · exact ⟨[pOwner, pA], [pB, pMisc], rfl, by decide, by decide⟩
+  · exact ⟨[pOwner, pA, pB], [pMisc], rfl, by decide, by decide⟩
 
 /-- **reload_ctor_counter** (finding C20-reload-loses-plugin).  "A plugin whose constructor raises
 leaves the previously loaded set registered" is false for `reload`: the old instance is removed and
